@@ -184,6 +184,39 @@ func c18R2(c *Ctx) {
 	if !found {
 		c.bad("recvCheckV2/skip-keepalive", c.pos(f.Pos()), "the pause-aware reader no longer skips '=' keep-alive lines")
 	}
+	{
+		// universal form: under {protocol >= 3, the payload is exactly one byte, that byte is '='} no successful return is
+		// reachable — whatever else the guard mentions (a keep-alive is never handed to the caller as data)
+		v3c := c.constVal("kProtocolVersion3")
+		lenIs1 := assumption{val: true, cmp: func(op token.Token, x, y ssa.Value) (bool, bool) {
+			lc, _ := callOf(x)
+			if (op != token.EQL && op != token.NEQ) || lc == nil || calleeID(&lc.Call) != "builtin len" || !isConstIntV(1)(y) {
+				return false, false
+			}
+			return true, op == token.EQL
+		}}
+		isEq := assumption{val: true, cmp: func(op token.Token, x, y ssa.Value) (bool, bool) {
+			if (op != token.EQL && op != token.NEQ) || !isConstIntV('=')(y) {
+				return false, false
+			}
+			return true, op == token.EQL
+		}}
+		reach := blocksUnder(f, []assumption{valueIs(isFieldLoad("Protocol"), v3c), lenIs1, isEq})
+		// only returns after the line was read count (the early error returns of the pause wait are not "payload")
+		var rl ssa.Instruction
+		for _, ci := range callsIn(f, idIs(tT+"recvLine")) {
+			rl = ci.(ssa.Instruction)
+		}
+		if rl != nil {
+			eachInstr(f, func(in ssa.Instruction) {
+				if !isReturn(in) || !reach[in.Block()] || !c.maySucceed(in) || !domI(rl, in) {
+					return
+				}
+				c.bad("recvCheckV2/keepalive-never-returned", c.ipos(in), "a line whose payload is exactly '=' can be returned to the caller as data under protocol >= 3 (an extra condition next to the keep-alive test lets it through)")
+			})
+			c.ok("recvCheckV2/keepalive-never-returned.checked", c.pos(f.Pos()), "under protocol >= 3 a '=' payload never reaches a successful return")
+		}
+	}
 	// every reader of DATA / SUCC lines in protocol >= 2 uses the pause-aware reader
 	for _, name := range []string{"trzszTransfer.pipelineRecvCurrentAck", "trzszTransfer.pipelineRecvFinalAck", "trzszTransfer.pipelineRecvBase64Data", "trzszTransfer.pipelineRecvBinaryData"} {
 		h := c.fn(name)
